@@ -134,5 +134,8 @@ func init() {
 				elin.CheckMul(run, c.Prog(id), "MUL")
 			}
 		}
+		for _, id := range []string{"purego", "amd64"} {
+			globalStoreRule(c, id) // the tables are not modified after initialisation (serial and vector users)
+		}
 	}
 }
